@@ -20,11 +20,14 @@ fn water(rng: &mut Rng) -> Mh2oChunk {
         let layers = rng.range(1, 3) as usize;
         let mut e = Mh2oEntry { header: Mh2oHeader { offset_instances: 0, layer_count: layers as u32, offset_attributes: 0 }, ..Default::default() };
         for _ in 0..layers {
-            let (x, y) = (rng.below(6) as u8, rng.below(6) as u8);
-            let (w, h) = (rng.range(1, 2) as u8, rng.range(1, 2) as u8);
+            // instances anywhere in the 8x8 cell grid, one in three reaching the far edge (x + w = 8 / y + h = 8: the last
+            // vertex column / row of the 9x9 grid), up to the full cell
+            let (x, y) = (rng.below(8) as u8, rng.below(8) as u8);
+            let w = if rng.chance(1, 3) { 8 - x } else { rng.range(1, (8 - x) as u64) as u8 };
+            let h = if rng.chance(1, 3) { 8 - y } else { rng.range(1, (8 - y) as u64) as u8 };
             let lvf = *rng.pick(&[0u16, 2]);
             e.instances.push(Mh2oInstance { liquid_type: rng.range(1, 20) as u16, liquid_object_or_lvf: lvf, min_height_level: f(rng), max_height_level: f(rng), x_offset: x, y_offset: y, width: w, height: h, offset_exists_bitmap: 0, offset_vertex_data: 0 });
-            e.exists_bitmaps.push(if rng.chance(1, 2) { Some(rng.below(1 << (w * h)) | 1) } else { None });
+            e.exists_bitmaps.push(if rng.chance(1, 2) { Some((if (w as u32) * (h as u32) >= 63 { rng.next() } else { rng.below(1u64 << ((w as u32) * (h as u32))) }) | 1) } else { None });
             e.vertex_data.push(if rng.chance(2, 3) {
                 if lvf == 0 { let mut g: Box<[Option<HeightDepthVertex>; 81]> = Box::new([None; 81]);
                     for z in y as usize..=(y + h) as usize { for xx in x as usize..=(x + w) as usize { g[z * 9 + xx] = Some(HeightDepthVertex { height: f(rng), depth: rng.next() as u8 }); } }
@@ -50,7 +53,7 @@ fn mcnk_canon(c: &McnkChunk) -> String {
     let h = &c.header;
     format!("hdr({},{},{},{},{:?},{})|h{:?}|n{:?}|l{:?}|r{:?}|a{:?}|s{:?}|c{:?}|e{:?}|q{:?}", h.flags.value, h.index_x, h.index_y, h.area_id, h.position.map(|x| x.to_bits()), h.holes_low_res,
         c.heights.as_ref().map(|x| x.heights.iter().map(|v| v.to_bits()).collect::<Vec<_>>()), c.normals.as_ref().map(|n| n.normals.iter().map(|v| (v.x, v.y, v.z)).collect::<Vec<_>>()),
-        c.layers.as_ref().map(|l| l.layers.iter().map(|y| (y.texture_id, y.flags.value, y.effect_id)).collect::<Vec<_>>()), c.refs.as_ref().map(|r| r.references.clone()),
+        c.layers.as_ref().map(|l| l.layers.iter().map(|y| (y.texture_id, y.flags.value, y.effect_id)).collect::<Vec<_>>()), (c.refs.as_ref().map(|r| r.references.clone()), c.doodad_refs.as_ref().map(|r| r.doodad_refs.clone()), c.wmo_refs.as_ref().map(|r| r.wmo_refs.clone())),
         c.alpha.as_ref().map(|a| a.data.clone()), c.shadow.as_ref().map(|s| s.shadow_map.clone()), c.vertex_colors.as_ref().map(|v| v.colors.iter().map(|c| (c.b, c.g, c.r, c.a)).collect::<Vec<_>>()),
         c.sound_emitters.as_ref().map(|s| s.emitters.len()), c.liquid.is_some())
 }
@@ -151,6 +154,13 @@ pub fn run(ctx: &mut Ctx) {
                 }
                 if rng.chance(1, 3) { c.shadow = Some(McshChunk { shadow_map: rng.bytes(512) }); }
                 if rng.chance(1, 3) { let r: Vec<u32> = (0..rng.range(1, 4)).map(|_| rng.below(9) as u32).collect(); c.header.n_doodad_refs = r.len() as u32; c.refs = Some(McrfChunk { references: r }); }
+                // split reference lists (doodads / map objects in chunks of their own), alone and together
+                if c.refs.is_none() { match rng.below(5) {
+                    0 => { let r: Vec<u32> = (0..rng.range(1, 4)).map(|_| rng.below(9) as u32).collect(); c.header.n_doodad_refs = r.len() as u32; c.doodad_refs = Some(wow_adt::chunks::mcnk::McrdChunk { doodad_refs: r }); }
+                    1 => { let r: Vec<u32> = (0..rng.range(1, 4)).map(|_| rng.below(9) as u32).collect(); c.header.n_map_obj_refs = r.len() as u32; c.wmo_refs = Some(wow_adt::chunks::mcnk::McrwChunk { wmo_refs: r }); }
+                    2 => { let r: Vec<u32> = (0..rng.range(1, 4)).map(|_| rng.below(9) as u32).collect(); let q: Vec<u32> = (0..rng.range(1, 3)).map(|_| 20 + rng.below(9) as u32).collect();
+                           c.header.n_doodad_refs = r.len() as u32; c.header.n_map_obj_refs = q.len() as u32; c.doodad_refs = Some(wow_adt::chunks::mcnk::McrdChunk { doodad_refs: r }); c.wmo_refs = Some(wow_adt::chunks::mcnk::McrwChunk { wmo_refs: q }); }
+                    _ => {} } }
                 if ver != AdtVersion::VanillaEarly && rng.chance(1, 2) { c.vertex_colors = Some(MccvChunk { colors: (0..145).map(|_| VertexColor { b: rng.next() as u8, g: rng.next() as u8, r: rng.next() as u8, a: 127 }).collect() }); }
                 b = b.add_mcnk_chunk(c);
             }
